@@ -193,6 +193,7 @@ func c16UnbalancedFormatting(doc []byte) bool {
 	return len(stack) > 0
 }
 
+var reUnquotedSlash = regexp.MustCompile(`=[^\s"'<>=]+/>`)
 var reBodyTag = regexp.MustCompile(`(?i)<body[\s>/]`)
 var reHTMLTag = regexp.MustCompile(`(?i)<html[\s>/]`)
 var reAbuttingAttr = regexp.MustCompile(`<[a-zA-Z][^<>]*=\s*("[^"<>]*"|'[^'<>]*')[^\s>/'"<][^<>]*>`)
@@ -259,6 +260,8 @@ func c16Offsets(r *hx.Rand, n int, out *hx.Out, _ []string) {
 				sig = "C16/html-capture-reparented-metadata"
 			case strings.HasPrefix(name, "html") && strings.Contains(on.detail, "nil pointer dereference") && off.verdict != "panic":
 				sig = "C16/html-offsets-missing-node-metadata"
+			case strings.HasPrefix(name, "html") && strings.Contains(on.detail, "index out of range") && off.verdict != "panic" && (len(reBodyTag.FindAll(doc, 3)) > 1 || len(reHTMLTag.FindAll(doc, 3)) > 1):
+				sig = "C16/html-capture-repeated-body-tag-panic"
 			}
 			on = off
 			on.offs, on.errOffs = nil, nil
@@ -270,6 +273,8 @@ func c16Offsets(r *hx.Rand, n int, out *hx.Out, _ []string) {
 				sig = "C16/html-capture-whitespace-text-placement" // known finding F40: only white space inside literals differs
 			case strings.HasPrefix(name, "html") && bytes.IndexByte(doc, 0) >= 0 && c15Same(name, c16StripLiteralNUL(off), c16StripLiteralNUL(on)):
 				sig = "C16/html-capture-nul-in-text" // known finding F51: only U+0000 inside literals differs
+			case strings.HasPrefix(name, "html") && on.verdict == "ok" && off.verdict == "ok" && reUnquotedSlash.Match(doc):
+				sig = "C16/html-capture-unquoted-value-trailing-slash" // known finding F95: "/" ending an unquoted value right before ">"
 			case strings.HasPrefix(name, "html") && on.verdict == "ok" && off.verdict == "ok" && (len(reBodyTag.FindAll(doc, 3)) > 1 || len(reHTMLTag.FindAll(doc, 3)) > 1):
 				sig = "C16/html-capture-repeated-body-tag" // known finding F52: attributes of a repeated <body>/<html> start tag
 			case strings.HasPrefix(name, "html") && on.verdict == "ok" && off.verdict == "ok" && c16UnbalancedFormatting(doc):
